@@ -4,7 +4,7 @@ driver ops in RunIO.lean).  Cases:
   {"op": "emit",  "tg", "fmt", "blanks", "min", "max", "minlen"}   text written by _prepTgForSaving + the text emitters
   {"op": "prep",  "tg", "blanks", "min", "max", "minlen"}          the prepared tiers (fill-in, sliver absorption)
   {"op": "parse", "text", "iei"}                                   what the text parsers return (numerals as strings)
-  {"op": "u_num" | "u_text" | "u_split" | "u_fetchtext" | "u_fetchrow", ...}   matcher units against `re` / the real helpers
+  {"op": "u_num" | "u_text" | "u_split" | "u_class" | "u_fetchtext" | "u_fetchrow", ...}   matcher units against `re` / the real helpers
 
 Every other op is oracle-only: encode -> 'skip', render -> 'ok skip'.
 """
@@ -20,7 +20,7 @@ import tgops
 class SpecError(Exception):
     pass
 
-MODEL_OPS = {"emit", "prep", "parse", "specread", "dupnames", "u_num", "u_text", "u_split", "u_fetchtext", "u_fetchrow"}
+MODEL_OPS = {"emit", "prep", "parse", "specread", "dupnames", "u_num", "u_text", "u_split", "u_class", "u_fetchtext", "u_fetchrow"}
 
 
 def times_of(c):
@@ -56,6 +56,8 @@ def encode(c, enc):
         return f"u_text {enc.s(c['s'])} {enc.s(c['kw'])} {enc.b(c['dotall'])}"
     if op == "u_split":
         return f"u_split {enc.s(c['s'])} {enc.s(c['kw'])}"
+    if op == "u_class":
+        return f"u_class {enc.s(c['s'])}"
     if op in ("u_fetchtext", "u_fetchrow"):
         return f"{op} {enc.s(c['s'])} {c['i']}"
     raise KeyError(op)
@@ -127,6 +129,9 @@ def impl(c):
         return ("ok", None if m is None else m.groups()[0])
     if op == "u_split":
         return ("ok", re.split(c["kw"] + r" ?\[", c["s"], flags=re.MULTILINE))
+    if op == "u_class":
+        # the class test of _parseNormalTextgrid (after fix A22 / df3976c)
+        return ("ok", re.search(r'class ?= ?"IntervalTier"', c["s"]) is not None)
     if op == "u_fetchtext":
         return T.call(lambda: textgrid_io._fetchTextRow(c["s"], c["i"]))
     if op == "u_fetchrow":
@@ -165,6 +170,8 @@ def render(c, r, enc):
         return "ok none" if v is None else "ok some " + enc.s(v)
     if op == "u_split":
         return "ok " + " ".join([str(len(v))] + [enc.s(p) for p in v])
+    if op == "u_class":
+        return "ok true" if v else "ok false"
     if op in ("u_fetchtext", "u_fetchrow"):
         return f"ok {enc.s(v[0])} {v[1]}"
     raise KeyError(op)
